@@ -81,6 +81,8 @@ def cases(tier: str, seed: int) -> list[dict]:
     for kind, scheme, dim, et in CONFIGS:
         out.append({"kind": kind, "scheme": scheme, "dim": dim, "et": et, "nops": 3, "script": True})
     for kind, scheme, dim, et in CONFIGS:
+        out.append({"kind": kind, "scheme": scheme, "dim": dim, "et": et, "nops": 2, "script": "virgin-first"})
+    for kind, scheme, dim, et in CONFIGS:
         if kind in ("thermal", "elastic", "weakforms") and not (kind == "weakforms" and scheme == "static"):
             out.append({"kind": kind, "scheme": scheme, "dim": dim, "et": et, "nops": 2, "script": "steady-then-transient"})
     for i, c in enumerate(out):
@@ -192,7 +194,12 @@ def cmp_val(a, b):
     if a is None or b is None:
         return 0.0 if (a is None and b is None) else np.inf
     try:
-        return relerr(np.asarray(a, dtype=float), np.asarray(b, dtype=float))
+        a_, b_ = np.asarray(a, dtype=float), np.asarray(b, dtype=float)
+        if a_.shape == b_.shape and np.isnan(b_).any():
+            # an undefined value (0 / 0 of an error indicator at the zero state) stored as such is restored as such
+            both = np.isnan(a_) & np.isnan(b_)
+            a_, b_ = np.where(both, 0.0, a_), np.where(both, 0.0, b_)
+        return relerr(a_, b_)
     except (TypeError, ValueError):
         return 0.0 if str(a) == str(b) else np.inf
 
@@ -518,7 +525,19 @@ def _run(case, ctx, rng, kind, scheme, dim, et, key0, root):
 
     def op_save_load():
         S = os.path.join(root, f"S{len(history)}")
+        reuse = rng.random() < 0.5
         with ctx.monitored("no-exception", key0 + "/Save+Load_Simu/raised"):
+            if reuse:
+                # a folder that already holds another simulation (an earlier run of another model saved there): Save replaces it
+                S = os.path.join(root, "reused")
+                if not os.path.exists(S):
+                    decoy, _ = new_sim()
+                    if kind not in ("beam", "weakforms"):
+                        d2, _ = new_sim()
+                        decoy.Save_Iter()
+                        decoy.mesh = d2.mesh
+                        decoy.Save_Iter()
+                    decoy.Save(S)
             live.Save(S)
             loaded = Load_Simu(S)
         k = key0 + "/Save+Load_Simu"
@@ -578,13 +597,18 @@ def _run(case, ctx, rng, kind, scheme, dim, et, key0, root):
         with ctx.monitored("no-exception", key0 + "/raised"):
             with quiet():
                 history.append("build")
-                op_step()
-                history.append("step")
+                if case.get("script") != "virgin-first":
+                    op_step()
+                    history.append("step")
                 # scripted prefix: every restore path at least once per configuration (several meshes, restore an early
                 # iteration after later solves, save again right after a restore, read, query, save / load), then random
                 script = [(op_save, None), (op_step, None), (op_save, None), (op_mesh, None), (op_save, None), (op_set_iter, 0), (op_save, None),
                           (op_step, None), (op_save, None), (op_set_iter, 2), (op_set_iter, 3), (op_get, 1), (op_result_iter, 0), (op_folder, None),
                           (op_save, None), (op_save_load, None), (op_set_iter, 1)] if case.get("script") is True else []
+                if case.get("script") == "virgin-first":
+                    # the initial state is stored as iteration 0 before anything is solved, and restored after load steps
+                    script = [(op_save, None), (op_step, None), (op_save, None), (op_step, None), (op_save, None), (op_set_iter, 0), (op_step, None), (op_save, None),
+                              (op_set_iter, 0), (op_get, 0), (op_result_iter, 0), (op_set_iter, 2)]
                 if case.get("script") == "steady-then-transient":
                     # a steady state saved under the stationary algorithm, transient steps saved after it, the steady state restored
                     # while the transient scheme is in force, and back
